@@ -168,3 +168,65 @@ Example ex_fallback :
   | Err _ => False
   end.
 Proof. vm_compute. reflexivity. Qed.
+
+(* ---- multiband amplifiers (type_def 'multi_band': a named group of single-band entries) *)
+(* the permitted multiband models: in the applicable restriction list or - when none applies - allowed for design,
+   every member covering one of the design bands *)
+Theorem C10_multi_restrictions : forall nd prev next bands lib groups m,
+  n_variety nd = ""%string ->
+  (In m (multi_restrictions nd prev next bands lib groups) <->
+   exists g, In g groups /\ g_name g = m /\
+     (let r := restr_list nd prev next in (r <> [] -> In m r) /\ (r = [] -> g_allowed g = true)) /\
+     Forall (fun t => exists b a, In b bands /\ lookup_amp t lib = Some a /\ covers a (fst b) (snd b) = true) (g_members g)).
+Proof. exact multi_restrictions_spec. Qed.
+Print Assumptions C10_multi_restrictions.
+
+(* a model that offers a capable entry for every band survives preselect_multiband_amps *)
+Theorem C10_multi_preselect_keeps : forall lib groups ext g bts sel,
+  NoDup (map g_name groups) -> In g groups -> In (g_name g) sel ->
+  Forall (band_ok lib g true ext) bts ->
+  exists sel', preselect lib groups ext sel bts = Ok sel' /\ In (g_name g) sel'.
+Proof. exact preselect_keeps. Qed.
+Print Assumptions C10_multi_preselect_keeps.
+
+(* if a permitted multiband model is capable in every band (extended-gain allowance included), every band's choice
+   is capable, needs no power reduction and is no noisier than that model's entry for the band *)
+Theorem C10_multi_capable : forall nd prev next lib groups maxl ext bts g,
+  NoDup (map g_name groups) -> n_variety nd = ""%string -> In g groups ->
+  In (g_name g) (multi_restrictions nd prev next (map (fun b => (fst (fst (fst b)), snd (fst (fst b)))) bts) lib groups) ->
+  Forall (band_ok lib g (raman_allowed prev maxl) ext) bts ->
+  exists mr redfa, multi_redfa nd prev next lib groups ext bts = Ok (mr, redfa) /\
+    Forall (fun b => let '(bmin, bmax, gain, pt) := b in
+              forall nf, exists t a s red,
+                In t (g_members g) /\ lookup_amp t lib = Some a /\ covers a bmin bmax = true /\
+                band_select lib redfa prev maxl bmin bmax gain pt ext nf = Ok (s, red) /\
+                capable (raman_allowed prev maxl) ext gain pt s /\ red == 0 /\ nf s <= nf a) bts.
+Proof. exact multi_capable. Qed.
+Print Assumptions C10_multi_capable.
+
+(* full statement "every band's choice belongs to a permitted multiband model" is false of the faithful model
+   (finding F-multiband-leak): mA = [c_ok, l0] allowed, mB = [c_good, l0] not allowed; l0 pulls mB into the
+   preselection and the C band gets c_good *)
+Theorem C10_multi_pick_permitted_refuted :
+  exists nd prev next lib groups maxl ext bts mr redfa bmin bmax gain pt nf s red,
+    n_variety nd = ""%string /\ In (bmin, bmax, gain, pt) bts /\
+    multi_redfa nd prev next lib groups ext bts = Ok (mr, redfa) /\
+    band_select lib redfa prev maxl bmin bmax gain pt ext nf = Ok (s, red) /\
+    forall g, In g groups -> In (g_name g) mr -> ~ In (a_name s) (g_members g).
+Proof. exact multi_pick_permitted_refuted. Qed.
+Print Assumptions C10_multi_pick_permitted_refuted.
+
+(* non-vacuity of C10_multi_capable: mA is permitted and capable in both bands *)
+Example ex_multi_hyp :
+  In (g_name (mkG "mA" true ["c_ok"; "l0"]%string))
+     (multi_restrictions (mkNode "" []) NOther NOther [(187000, 190000); (191300, 196000)] w_mlib w_groups) /\
+  Forall (band_ok w_mlib (mkG "mA" true ["c_ok"; "l0"]%string) (raman_allowed NOther (1 # 4000)) (5 # 2))
+         [(187000, 190000, 20, 18); (191300, 196000, 20, 18)].
+Proof.
+  split; [vm_compute; tauto |].
+  constructor; [| constructor; [| constructor]].
+  - exists "l0"%string, (mkAmp "l0" false false true 186550 190050 15 25 21 false).
+    repeat split; try (cbn; tauto); try discriminate; reflexivity.
+  - exists "c_ok"%string, (mkAmp "c_ok" false false true 191250 196150 15 25 21 false).
+    repeat split; try (cbn; tauto); try discriminate; reflexivity.
+Qed.
